@@ -46,6 +46,28 @@ def ref_budget(b, evals, best):
     raise ValueError(b)
 
 
+def producing_slots(step, size):
+    """Slots that the documented slicing rule (ParallelStep docstring: round(w * size / total),
+    clipped, the last slice takes the rest) hands to a step that can create new individuals.
+    A composition that hands them none (e.g. elitism taking both slots of a population of 2)
+    legitimately never advances an evaluation budget."""
+    k = step[0]
+    if k in ("novelty", "mutation", "crossover"):
+        return size
+    if k == "seq":
+        return size if any(producing_slots(x, size) for x in step[1]) else 0
+    if k in ("par", "xpar"):
+        ws = list(step[2])
+        total = sum(ws)
+        idx, acc = [0], 0
+        for w_ in ws:
+            acc += int(round(w_ * size / total, 0))
+            idx.append(min(acc, size))
+        idx[-1] = size
+        return sum(producing_slots(x, b - a) for x, a, b in zip(step[1], idx, idx[1:]) if b - a > 0)
+    return 0
+
+
 def budget_strategy():
     ev = st.builds(lambda n: ["evals", n], st.integers(1, 80))
     tg = st.builds(lambda t: ["target", t], st.integers(0, 4))
@@ -111,6 +133,7 @@ def cases(draw):
         # GP only: the initial individuals were scored before under ANOTHER problem (warm start from
         # an earlier search); that problem rates every program with the target value
         "prescored": draw(st.sampled_from([False, False, True])),
+        "budget_reused": draw(st.sampled_from([False, False, True])),
     }
 
 
@@ -237,6 +260,16 @@ class Budgets(Facet):
 
                 init = PreScored()
                 rec.label("prescored-initial-population")
+            if case.get("budget_reused"):
+                # the very same budget object (built once, e.g. for a loop over seeds) has already
+                # served a complete earlier search with its own algorithm and tracker
+                try:
+                    w.search("rs", 0, 1, fitness=ff, minimize=case["minimize"], budget_obj=budget)
+                except Exception:  # noqa: BLE001
+                    pass
+                del invoked[:], log[:]
+                state.update(checks=0, last_sig=None)
+                rec.label("budget-object-reused")
             try:
                 _, best = w.search(
                     case["alg"], 0, case["popsize"], fitness=ff, minimize=case["minimize"],
@@ -249,6 +282,9 @@ class Budgets(Facet):
                         f"C14/counter/{case['alg']}",
                         f"at a budget check tracker.get_number_evaluations() = {w.last_algorithm.tracker.get_number_evaluations() if hasattr(w, 'last_algorithm') else '?'} but the fitness function had been invoked {len(invoked)} times; {desc}",
                     )
+                elif str(s) == "cycle" and case["step"] and producing_slots(case["step"], max(2, case["popsize"])) == 0:
+                    rec.label("excluded:no-slot-for-a-step-that-creates-individuals")
+                    rec.stats.excluded["no-producing-slice"] += 1
                 elif str(s) == "cycle":
                     rec.fail(
                         f"C14/livelock/{case['alg']}",
